@@ -24,7 +24,7 @@ def one(d):
             return dict(id=name, status="skipped", why="patch does not apply to this tree", alarms=[])
         alarms = []
         for p in props:
-            out = subprocess.run([os.path.join(VERIF, "bin", "c4echeck"), "-prop", p, "-tier", "quick", "-repo", t + "/src", "-verif", VERIF, "-out", t + "/out-" + p], capture_output=True, text=True, env=ENV)
+            out = subprocess.run([os.environ.get("C4E_BIN", os.path.join(VERIF, "bin", "c4echeck")), "-prop", p, "-tier", "quick", "-repo", t + "/src", "-verif", VERIF, "-out", t + "/out-" + p], capture_output=True, text=True, env=ENV)
             if out.returncode != 0:
                 alarms += sorted(set(re.findall(r"^(?:VIOLATED|UNDECIDED)\s+\S+\s+rule=(\S+)", out.stdout, re.M)))
         return dict(id=name, status="ok" if not alarms else "FAIL", why=("alarms: %s" % alarms) if alarms else "", alarms=alarms)
